@@ -687,8 +687,14 @@ sylvia = { path = "%(repo)s/sylvia", features = ["mt", "stargate", "iterator", "
 """
 
 
-def build_corpus(tag, progs, nshards=16):
-    """Render the programs into shard crates `<tag>-sN`, build them, return {pid: exe}."""
+def rename_dep(text, dep):
+    """rewrite harness text so that the framework is only reachable under the name `dep`"""
+    return re.sub(r"\bsylvia::", dep + "::", text).replace("sylvia = {", dep + " = { package = \"sylvia\",")
+
+
+def build_corpus(tag, progs, nshards=16, dep=None, check_only=False):
+    """Render the programs into shard crates `<tag>-sN`, build them, return {pid: exe}.
+    dep: import the framework crate under another name (renamed dependency)."""
     nshards = max(1, min(nshards, len(progs)))
     shards = [[] for _ in range(nshards)]
     for n, p in enumerate(progs):
@@ -700,21 +706,22 @@ def build_corpus(tag, progs, nshards=16):
         name = "%s-s%d" % (tag, si)
         names.append(name)
         d = os.path.join(c.WS, name)
-        c.write_if_changed(os.path.join(d, "Cargo.toml"), CARGO_TOML % {"name": name, "repo": c.REPO})
-        c.write_if_changed(os.path.join(d, "src", "prelude.rs"), prelude)
+        fix = (lambda t: rename_dep(t, dep)) if dep else (lambda t: t)
+        c.write_if_changed(os.path.join(d, "Cargo.toml"), fix(CARGO_TOML % {"name": name, "repo": c.REPO}))
+        c.write_if_changed(os.path.join(d, "src", "prelude.rs"), fix(prelude))
         mods = "\n".join("mod %s_mod;\nuse %s_mod::%s;" % (p["id"], p["id"], p["id"]) for p in ps)
         arms = "\n".join('            "%s" => %s::run(op, rest),' % (p["id"], p["id"]) for p in ps)
         c.write_if_changed(os.path.join(d, "src", "main.rs"), MAIN_RS % {"mods": mods, "arms": arms})
         keep = {"main.rs", "prelude.rs"}
         for p in ps:
-            c.write_if_changed(os.path.join(d, "src", "%s_mod.rs" % p["id"]), render_module(p))
+            c.write_if_changed(os.path.join(d, "src", "%s_mod.rs" % p["id"]), fix(render_module(p)))
             keep.add("%s_mod.rs" % p["id"])
         for f in os.listdir(os.path.join(d, "src")):
             if f not in keep:
                 os.remove(os.path.join(d, "src", f))
         members[name] = None
     c.ensure_ws_members(members)
-    args = ["build", "--offline"]
+    args = ["check" if check_only else "build", "--offline"]
     for n in names:
         args += ["-p", n]
     p = c.cargo(args, cwd=c.WS, timeout=7200)
